@@ -3,7 +3,7 @@
    harness rewrites the implementation's streams into this codec with an
    inflater that is independent of the code under test (DESIGN.md section 5/6). *)
 From Coq Require Import ZArith NArith List Bool.
-From FV.Model Require Import Bytes Bson Metrics Codec Collector Wf RoundTrip CollectorOk.
+From FV.Model Require Import Bytes Bson Metrics Codec Collector Wf RoundTrip CollectorOk Frame.
 Import ListNotations.
 Open Scope Z_scope.
 
@@ -66,3 +66,11 @@ Definition x_flat_all (cs : list chunk) : list doc := flat_map flat_docs cs.
 (* oracles with the trivial codec *)
 Definition x_decode_ftdc := decode_ftdc inflate_flag (Some delta_cap).
 Definition x_c07_run := c07_run deflate_flag inflate_flag (Some delta_cap).
+
+(* byte-level reader; the third component tells that the model declined to expand a
+   chunk larger than its evaluation cap (the case is then skipped by the driver) *)
+Definition x_read_stream (bs : bytes) : list chunk * bool * bool :=
+  let '(docs, fe) := read_docs bs in
+  let '(cs, ce) := read_chunks_gen inflate_flag (Some delta_cap) None docs in
+  (cs, match fe, ce with None, None => false | _, _ => true end,
+   match ce with Some EHuge => true | _ => false end).
